@@ -1275,4 +1275,36 @@ example :=
     rfl (by decide) rfl rfl rfl
     (by intro o ho; simp [exInstStarted, exInst] at ho; rcases ho with rfl | rfl | rfl <;> decide)
 
+/-- **groupvm_is_corevm_partial (or-group of single atoms, phase 1, through the interpreter model's real `_advance_head_front`).**  The
+    hypotheses of `groupvm_is_corevm_partial_or`, the flow STARTED and every head inside the program.  CoreVM's own `advanceHeadFront`,
+    called with the LIST of branch heads that wait on `match e`, ends in exactly the state `GroupVM.p1Brs e 0 brs` describes, changes
+    nothing else, and hands ALL these heads back, in order — they are MERGING, the merging loop of `runToCompletion` advances them
+    again one by one (`groupvm_is_corevm_partial_or_event_all` is about that loop).  Any number of branches. -/
+theorem groupvm_is_corevm_partial_advance_heads_or (fuel : Nat) (s : CoreVM.VM) (f : CoreIndex.FUid) (i : CoreIndex.Inst) (x : CoreVM.InstX)
+    (cfg : CoreVM.FlowCfg) (l mu : String) (pe e : Nat)
+    (others : List CoreVM.HCore) (us : List (CoreIndex.HUid × Nat)) (brs : List Br)
+    (F : CoreVM.FlowAt s f i x cfg) (hown : x.ctxOwner = none) (C : CoreVM.OrShape cfg l mu pe) (S : CoreVM.MembersShape cfg l pe us)
+    (hlen : us.length = brs.length) (hnm : CoreVM.noMulti brs = true) (hnd : (others.map (·.1) ++ us.map (·.1)).Nodup)
+    (hv : CoreVM.hview i = others ++ CoreVM.renderB (pe + 1) us brs)
+    (hstarted : i.status = .started) (hrange : ∀ o ∈ i.heads, o.pos < cfg.elements.size) :
+    ∃ s' i', CoreVM.advanceHeadFront (fuel + 3) ((CoreVM.matchingB e us brs).map fun h => (f, h)) s
+        = .ok ((CoreVM.matchingB e us brs).map fun h => (f, h)) s' ∧
+      CoreVM.FlowAt s' f i' x cfg ∧ s'.r = s.r ∧
+      CoreVM.hview i' = others ++ CoreVM.renderB (pe + 1) us (p1Brs e 0 brs).1 ∧ i'.status = .started :=
+  CoreVM.or_group_phase1_real fuel s f i x cfg l mu pe e others us brs F hown C S hlen hnm hnd hv hstarted hrange
+
+def exVMStartedOr : CoreVM.VM := { ixs := exIxsStarted, r := { prog := { flows := [exCfgOr] }, fx := [("m", exXFork)] } }
+
+-- non-vacuity of `groupvm_is_corevm_partial_advance_heads_or`: `match E0() or E0()`, event E0: both branch heads are advanced in ONE call
+-- of the real function, both end MERGING, both are handed back
+example :=
+  groupvm_is_corevm_partial_advance_heads_or 1 exVMStartedOr "m" exInstStarted exXFork exCfgOr "e" "u" 14 0 [("h0", 2, .inactive)]
+    [("h1", 4), ("h2", 7)] [.single 0, .single 0]
+    { hi := rfl, hx := rfl, hc := rfl } rfl
+    { hl := rfl, hsize := by decide, hm := rfl }
+    (by intro u hu; simp at hu; rcases hu with rfl | rfl <;> exact ⟨rfl, by decide⟩)
+    rfl rfl (by decide) rfl rfl
+    (by intro o ho; simp [exInstStarted, exInst] at ho; rcases ho with rfl | rfl | rfl <;> decide)
+example : CoreVM.matchingB 0 [("h1", 4), ("h2", 7)] [.single 0, .single 0] = ["h1", "h2"] := by decide
+
 end NemoVerif.C07
